@@ -173,6 +173,18 @@ impl Run<'_> {
         }
         // ---- bookkeeping of events + per-event oracles (C03, C06)
         let fu = sim.pool.verif_first_unpruned_slot().inner();
+        // certificates announced by this very step count as "announced" for the soundness oracle of the step's other
+        // events: the pool announces a certificate *after* it woke the children waiting for it, and a fast-finalization
+        // certificate may prune its own slot state within the step
+        for ev in &raw {
+            if let PoolEvent::CertCreated(c) = ev {
+                let ck = cert_kind(c);
+                if ck.has_hash() && ck != CK::Final {
+                    let h = c.block_hash().map(|h| keys.hash_id[h]).unwrap_or(0);
+                    sim.certified_ever.insert((c.slot().inner(), h));
+                }
+            }
+        }
         for ev in &raw {
             match ev {
                 PoolEvent::CertCreated(c) => {
